@@ -393,6 +393,14 @@ func (f *fctx) callFunction(ins *ssa.Call, callee *ssa.Function, args []Term, po
 		f.setResult(ins, res)
 		return
 	}
+	if !inRepo && callee.Parent() == nil && inlinableDependency(name) && callee.Blocks != nil {
+		// small pure dependency functions whose source go/ssa has built from the module cache (the code that is compiled):
+		// verified as part of the caller, like a repository helper without contract
+		f.sc.Trusted["note: dependency function "+name+" is translated from its source in the module cache and verified inline (not assumed)"] = true
+		res := f.inlineCall(callee, args, nil, pos)
+		f.setResult(ins, res)
+		return
+	}
 	if inRepo || callee.Parent() != nil {
 		res := f.inlineCall(callee, args, nil, pos)
 		f.setResult(ins, res)
@@ -898,4 +906,9 @@ func conjuncts(e Expr) []Expr {
 		return append(conjuncts(b.X), conjuncts(b.Y)...)
 	}
 	return []Expr{e}
+}
+
+// inlinableDependency: dependency packages whose (loop-free, allocation-free) functions are translated in place.
+func inlinableDependency(name string) bool {
+	return strings.HasPrefix(name, "gonum.org/v1/gonum/spatial/r3.")
 }
